@@ -58,7 +58,7 @@ func modelTest() modelTestResult {
 		rl := filepath.Join(scratch, "p", fmt.Sprintf("mtrace.%d", n))
 		os.MkdirAll(filepath.Join(scratch, "p"), 0o755)
 		e := append(os.Environ(), fmt.Sprintf("GOMAXPROCS=%d", gmp), "GORACE=log_path="+rl+" halt_on_error=0 exitcode=0 atexit_sleep_ms=0", "MODELTEST_RACELOG="+rl, "GODEBUG=")
-		out, _ := run(scratch, e, 90*time.Second, bins[build], args...)
+		out, _ := run(scratch, e, 5*time.Minute, bins[build], args...)
 		ms, _ := filepath.Glob(rl + ".*")
 		for _, m := range ms {
 			os.Remove(m)
@@ -84,6 +84,10 @@ func modelTest() modelTestResult {
 				defer wg.Done()
 				defer func() { <-sem }()
 				o := runOne(build, gmp, "ok", "-seed", strconv.FormatUint(seed+uint64(s), 10), "-runs", strconv.Itoa(mt.RunsEach))
+				if o == "" {
+					// no output at all: killed by the watchdog on a loaded machine; once more
+					o = runOne(build, gmp, "ok", "-seed", strconv.FormatUint(seed+uint64(s), 10), "-runs", strconv.Itoa(mt.RunsEach))
+				}
 				mu.Lock()
 				outs[key{s, k}] = o
 				mt.Processes++
